@@ -418,11 +418,12 @@ Theorem C18_source_frozen :
   gen_key_shape_ok = true /\ gen_key_len = std_key_len /\ gen_key_ranges = std_key_ranges /\
   valid_key gen_key_len gen_key_ranges gen_tmp_dir_name = false /\
   gen_mem_put_copies = true /\ gen_mem_get_copies = true /\
+  (gen_tmp_name_src = std_tmp_name_src /\ (16 <=? gen_tmp_name_bytes) = true /\ gen_tmp_in_dir = true) /\
   first_diff 0 frozen_texts = None.
 Proof.
   exact (conj gen_fs_create_frozen (conj gen_fs_commit_frozen (conj gen_key_shape
         (conj gen_key_len_frozen (conj gen_key_ranges_frozen (conj gen_tmp_dir_not_a_key
-        (conj gen_mem_put_copies_ok (conj gen_mem_get_copies_ok gen_texts_frozen)))))))).
+        (conj gen_mem_put_copies_ok (conj gen_mem_get_copies_ok (conj gen_tmp_name_ok gen_texts_frozen))))))))).
 Qed.
 Print Assumptions C18_source_frozen.
 
